@@ -36,12 +36,23 @@ length)`, so the streams differ iff the real code exposed or drained something
 the model does not consider stable (or different bytes).  A `seen` line that
 is not expected (stale, from a replayed transcript) is ignored.
 
+Panics: the driver runs the panic-aware state machines of `Model/HcobsP.lean`
+(`Enc.feedAllP`, `Enc.finishP`, `Dec.callP`); a model `panic` outcome prints `panic` (what
+the harness prints when the real call panics) and ends the run.  `Props/C07P.lean` proves
+the outcome unreachable and `xP = ok x`.
+
+A decoder run CONTINUES after `dec` reported an error: `Decoder::decode` leaves the object
+in `InitialState` over the same iovec (`Dec.callP`), so the following `dec` / drain /
+`finish` ops act on that decoder.  The `spec` cross-checks then concern the input fed since
+the last error and the output produced since then.
+
 `spec=1` in the `finish` / `err` observations is a model-internal cross-check the
 harness prints as a constant: the incremental machine's bytes (resp. verdict)
 equal `Spec.encode` (resp. `Spec.decode`) of the concatenated input.
 -/
 import Woodpile.Driver.Util
 import Woodpile.Model.Hcobs
+import Woodpile.Model.HcobsP
 import Woodpile.Model.HcobsZeros
 import Woodpile.Gen.Consts
 
@@ -71,6 +82,8 @@ structure St where
   input : List UInt8 := []
   /-- no `enc` / `dec` / drain since `params` -/
   fresh : Bool := true
+  /-- decoder: bytes output (drained + buffered) when the last failed call returned -/
+  outBase : Nat := 0
 
 def prodParams : Params := ⟨Woodpile.Gen.maxInit, Woodpile.Gen.maxSub, Woodpile.Gen.radix⟩
 
@@ -84,6 +97,8 @@ def parseMethod : String → Option Method
   | "c" => some .copy
   | "a" => some .borrow   -- anchored = borrow + push_anchor; same pipe ops
   | "r" => some .borrow   -- encode_read / decode_read = read_n + anchored
+  | "S" => some .borrow   -- `ZeroCopySink::append_borrow for Encoder` = `encode`   (encoder only)
+  | "T" => some .copy     -- `ZeroCopySink::append_copy for Encoder` = `encode_copy` (encoder only)
   | _ => none
 
 def runEmits (pipe : Pipe) (es : List Emit) : Pipe := Pipe.run pipe (es.map (·.op))
@@ -157,6 +172,11 @@ def step (s : St) (ws : List String) : St × List String :=
   | _ =>
   if s.await then ({ s with await := false, head := "", phase := .done }, ["missing-seen"]) else
   match ws with
+  -- `hcobs::find_stuff_sequence` called directly (track apigaps); no state
+  | ["find", hex] =>
+    match parseHex hex with
+    | some d => (s, ["find=" ++ (match findStuff d with | some i => toString i | none => "none")])
+    | none => (s, ["bad-op"])
   | ["params", "prod"] => startRun s prodParams
   | ["params", a, b] =>
     match a.toNat?, b.toNat? with
@@ -169,25 +189,31 @@ def step (s : St) (ws : List String) : St × List String :=
     if s.isEnc ∧ s.phase = .live then
       match parseMethod m, parseHex hex with
       | some m, some d =>
-        let (es', nid', emits) := Enc.feedAll s.p s.es s.pipe.nextId m d
-        let pipe' := runEmits s.pipe emits
-        if nid' = pipe'.nextId then ({ s with es := es', pipe := pipe', await := true, input := s.input ++ d, fresh := false }, [])
-        else ({ s with phase := .done }, ["model-desync"])
+        match Enc.feedAllP s.p s.es s.pipe.nextId m s.pipe d with
+        | .panic _ _ => ({ s with phase := .done }, ["panic"])
+        | .ok (es', nid', emits) =>
+          let pipe' := runEmits s.pipe emits
+          if nid' = pipe'.nextId then ({ s with es := es', pipe := pipe', await := true, input := s.input ++ d, fresh := false }, [])
+          else ({ s with phase := .done }, ["model-desync"])
       | _, _ => (s, ["bad-op"])
     else (s, ["bad-op"])
   | ["dec", m, hex] =>
-    if !s.isEnc ∧ s.phase = .live then
+    if !s.isEnc ∧ s.phase = .live ∧ m ≠ "S" ∧ m ≠ "T" then
       match parseMethod m, parseHex hex with
       | some m, some d =>
-        match Dec.feedAll s.p m s.ds d with
-        | .ok (ds', emits) =>
+        match Dec.callP s.p m s.ds d with
+        | .panic _ _ => ({ s with phase := .done }, ["panic"])
+        | .ok ⟨ds', emits, none⟩ =>
           ({ s with ds := ds', pipe := runEmits s.pipe emits, await := true, head := "ok ", input := s.input ++ d, fresh := false }, [])
-        | .error (e, emits) =>
+        | .ok ⟨ds', emits, some e⟩ =>
           -- the batch definition must reject what the state machine rejected
           let agree := (Spec.decode s.p (s.input ++ d)).isNone
-          ({ s with pipe := runEmits s.pipe emits, await := true,
+          let pipe' := runEmits s.pipe emits
+          -- the object stays usable: `ds'` is `InitialState`, the output so far stays
+          ({ s with ds := ds', pipe := pipe', await := true,
                     head := "err " ++ fmtErr e ++ " spec=" ++ b01 agree ++ " ",
-                    dieAfter := true, input := s.input ++ d }, [])
+                    input := [], fresh := false,
+                    outBase := pipe'.consumed.length + pipe'.bytes.length }, [])
       | _, _ => (s, ["bad-op"])
     else (s, ["bad-op"])
   | ["zenc", m, n] =>
@@ -218,7 +244,10 @@ def step (s : St) (ws : List String) : St × List String :=
   | ["finish"] =>
     if s.phase = .live then
       if s.isEnc then
-        let pipe' := runEmits s.pipe (Enc.finish s.p s.es)
+        match Enc.finishP s.p s.es s.pipe with
+        | .panic _ _ => ({ s with phase := .done }, ["panic"])
+        | .ok femits =>
+        let pipe' := runEmits s.pipe femits
         -- incremental machine vs. batch definition of the format
         let agree := decide (pipe'.consumed ++ pipe'.bytes = Spec.encode s.p s.input) && !pipe'.pending
         ({ s with pipe := pipe', phase := .done },
@@ -227,7 +256,7 @@ def step (s : St) (ws : List String) : St × List String :=
       else
         let spec := Spec.decode s.p s.input
         let (verdict, agree) := match Dec.finish s.ds with
-          | .ok () => ("ok", decide (spec = some (s.pipe.consumed ++ s.pipe.bytes)))
+          | .ok () => ("ok", decide (spec = some ((s.pipe.consumed ++ s.pipe.bytes).drop s.outBase)))
           | .error e => ("err " ++ fmtErr e, spec.isNone)
         ({ s with phase := .done },
           ["finish " ++ verdict ++ " spec=" ++ b01 agree ++ " size=" ++ toString s.pipe.size
